@@ -680,3 +680,147 @@ def check_returns_depend_alike(ctx, fi, rule='R-AGREE/returns-depend-alike'):
                      'right only if those inputs make no difference '
                      '(sorted, complete, contiguous), which nothing checks')
     return n
+
+
+def check_span_contiguity(ctx, fi, rule='R-ARITH/span-contiguity'):
+    """"these sorted, distinct indexes form one block" is the test
+    last - first == count - 1.  Wherever a comparison relates the span
+    `x[-1] - x[0]` of a sequence to its length (in any spelling, through
+    locals), the two sides must differ by exactly that one: with
+    `== count` a list that skips one index passes for a block, and the
+    skipped element is read in its place."""
+    from ..core.cfg import cfg_of
+    from ..core.defuse import rd_of, Expander
+    from ..core import poly as P
+    from ..core import terms as T
+    cfg = cfg_of(fi)
+    rd = rd_of(fi)
+    ex = None
+    n = 0
+
+    def strip(t):
+        while isinstance(t, tuple) and t and t[0] == 'call' and t[2] \
+                and T.call_name(t) in ('array', 'asarray', 'unique', 'sort',
+                                       'sorted', 'list', 'tuple', 'copy',
+                                       'deepcopy'):
+            t = t[2][0]
+        return t
+
+    raw = {}
+
+    def distinct_sorted(t):
+        if not (isinstance(t, tuple) and t and t[0] == 'call' and t[2]):
+            return False
+        nm = T.call_name(t)
+        if nm == 'unique':
+            return True
+        if nm in ('sorted', 'sort'):
+            a0 = t[2][0]
+            return isinstance(a0, tuple) and a0 and a0[0] == 'call' \
+                and T.call_name(a0) in ('set', 'unique', 'frozenset')
+        if nm in ('array', 'asarray', 'list', 'tuple', 'copy'):
+            return distinct_sorted(t[2][0])
+        return False
+
+    def atoms(t):
+        if not (isinstance(t, tuple) and t):
+            return None
+        if t[0] == 'sub':
+            raw.setdefault(strip(t[1]), []).append(t[1])
+        if t[0] == 'sub' and isinstance(t[2], tuple) and t[2]:
+            k = t[2]
+            if k == ('const', '0'):
+                return P.atom(('FIRST', strip(t[1])))
+            if k == ('unop', 'USub', ('const', '1')) or k == ('const',
+                                                               '-1'):
+                return P.atom(('LAST', strip(t[1])))
+            # x.shape[0]
+            if t[1][0] == 'attr' and t[1][2] == 'shape' \
+                    and k == ('const', '0'):
+                return P.atom(('LEN', strip(t[1][1])))
+        if t[0] == 'call' and T.call_name(t) == 'len' and t[2]:
+            return P.atom(('LEN', strip(t[2][0])))
+        if t[0] == 'attr' and t[2] == 'size':
+            return P.atom(('LEN', strip(t[1])))
+        return None
+
+    for node in cfg.nodes:
+        if node.id not in rd.live or node.ast is None:
+            continue
+        roots = [node.ast.test] if node.kind in ('if', 'while') else (
+            [node.ast] if node.kind in ('stmt', 'return') else [])
+        for root in roots:
+            for c in ast.walk(root):
+                if not (isinstance(c, ast.Compare) and len(c.ops) == 1
+                        and isinstance(c.ops[0], (ast.Eq, ast.NotEq))):
+                    continue
+                if ex is None:
+                    ex = Expander(fi)
+                try:
+                    a = P.poly(ex.expand(c.left, node.id), atoms)
+                    b = P.poly(ex.expand(c.comparators[0], node.id), atoms)
+                except Exception:
+                    continue
+                d = P._add(a, b, -1)
+                firsts = {}
+                lasts = {}
+                lens = {}
+                for mono, co in d.items():
+                    if len(mono) == 1 and mono[0][1] == 1 and isinstance(
+                            mono[0][0], tuple):
+                        kind = mono[0][0][0]
+                        if kind == 'FIRST':
+                            firsts[mono[0][0][1]] = co
+                        elif kind == 'LAST':
+                            lasts[mono[0][0][1]] = co
+                        elif kind == 'LEN':
+                            lens[mono[0][0][1]] = co
+                for x in set(firsts) & set(lasts) & set(lens):
+                    if lasts[x] != -firsts[x] or abs(lasts[x]) != 1:
+                        continue
+                    n += 1
+                    s_ = lasts[x]
+                    want = {
+                        ((('LAST', x), 1),): s_,
+                        ((('FIRST', x), 1),): -s_,
+                        ((('LEN', x), 1),): -s_,
+                        (): s_,
+                    }
+                    ok = d == {k_: P.Fraction(v_) for k_, v_ in
+                               want.items()}
+                    ctx.touch(fi)
+                    if ok and not all(distinct_sorted(r)
+                                      for r in raw.get(x, [])):
+                        # the endpoints and the count say nothing about
+                        # what lies between unless the sequence is sorted
+                        # and free of repeats -- or its steps are looked at
+                        par = c
+                        from ..core.loader import parent as _parent
+                        while isinstance(_parent(par), ast.BoolOp):
+                            par = _parent(par)
+                        steps = any(
+                            isinstance(k, ast.Call)
+                            and (k.func.attr if isinstance(
+                                k.func, ast.Attribute) else getattr(
+                                    k.func, 'id', '')) in ('diff',
+                                                           'ediff1d')
+                            for k in ast.walk(par))
+                        if not steps:
+                            ctx.ob(rule, f'{fi.qual}:span#{n - 1}',
+                                   fi.loc(c), False,
+                                   f'`{unparse(c)[:60]}` decides from the '
+                                   'first element, the last element and the '
+                                   'count that the indexes are one block, '
+                                   'but nothing makes them sorted and '
+                                   'distinct here: 1,3,2,4 passes, and its '
+                                   'rows are then returned in file order, '
+                                   'not in the order asked for')
+                            continue
+                    ctx.ob(rule, f'{fi.qual}:span#{n - 1}', fi.loc(c), ok,
+                           'the span is compared with count - 1' if ok else
+                           f'`{unparse(c)[:60]}` compares the span of the '
+                           'indexes with their count, but not as last - '
+                           'first == count - 1: a list with one index '
+                           'missing (or one too many) passes for a '
+                           'contiguous block')
+    return n
